@@ -1,0 +1,15 @@
+//go:build verif
+
+package mempool
+
+import "bytes"
+
+// VerifPool, when set, is called after every GetBuffer ("get") and before every PutBuffer ("put")
+// on the default pool (build tag verif only).
+var VerifPool func(op string, x *bytes.Buffer)
+
+func verifAt(op string, x *bytes.Buffer) {
+	if f := VerifPool; f != nil {
+		f(op, x)
+	}
+}
